@@ -44,7 +44,7 @@ HDR = 48
 PROTOS = list(range(1, 10)) + list(range(0x10, 0x1d)) + [0x20, 0x21, 0x22, 0x30, 0x3101, 0x3102, 0x3103]
 GOAWAY_CLS = {0: "accepted", 1: "chain id unreadable", 2: "different chain id", 3: "best hash", 4: "address", 5: "peer id",
               6: "genesis", 7: "certificate"}
-ADDR_OK = {"192.168.1.10": True, "dummy.aergo.io": True, "::1": True, "": False, "not a valid!!": False, "a..b": False}
+ADDR_OK = {"192.168.1.10": True, "192.168.1.2": True, "dummy.aergo.io": True, "::1": True, "": False, "not a valid!!": False, "a..b": False}
 
 
 # ------------------------------------------------------------------ helpers
@@ -753,6 +753,59 @@ def coq_raw_status(chain_id, best_hash, height, nil_sender, addr, has_addrs, pee
                                                     "; ".join("(mk_cert %s %s %s)" % (b(v), cb(a), cb(p)) for v, a, p in certs))
 
 
+def gen_vershs(ctx):
+    """Whole connections through the real wire handshakers, the real defaultVersionManager (FindBestP2PVersion,
+    GetVersionedHandshaker) and the real versioned handshakers: every version value x every single-field status difference
+    x inbound / outbound."""
+    rng = ctx.rng
+    quick = ctx.tier == "quick"
+    chain = {"v": 3, "pub": True, "main": True, "magic": "aergo.io", "cons": "dpos"}
+    base_l = {"chain": chain, "v0": 2, "v1": 3, "fork": 1000}
+    C = []
+
+    def st(**kw):
+        d = {"schain": dict(chain), "genesis": "local", "peer": "conn", "best_hash": "ab" * 32, "height": 5000, "addr": "192.168.1.2", "nil_sender": False}
+        d.update(kw)
+        return d
+    sch = lambda **kw: dict(chain, **kw)
+    muts = [("none", st()), ("genesis", st(genesis="other")), ("genesis-empty", st(genesis="")), ("genesis-short", st(genesis="0102")),
+            ("peer", st(peer=hx(rng.randbytes(38)))), ("peer-empty", st(peer="")),
+            ("chain.version", st(schain=sch(v=2))), ("chain.version", st(schain=sch(v=4))), ("chain.public", st(schain=sch(pub=False))),
+            ("chain.main", st(schain=sch(main=False))), ("chain.magic", st(schain=sch(magic="aergo.iO"))), ("chain.consensus", st(schain=sch(cons="raft"))),
+            ("best_hash-31", st(best_hash="ab" * 31)), ("best_hash-0", st(best_hash="")), ("best_hash-33", st(best_hash="ab" * 33)),
+            ("addr", st(addr="not a valid!!")), ("addr-empty", st(addr="")), ("nil_sender", st(nil_sender=True)),
+            # below the fork height: the per-height chain id has version 2, the static one version 3
+            ("height-below-fork", st(height=999)), ("height-below-fork+version", st(height=999, schain=sch(v=2))),
+            ("height-at-fork", st(height=1000)), ("height-0+version", st(height=0, schain=sch(v=2)))]
+    for op in ("inbound", "outbound"):
+        for v in (0x301, 0x302, 0x303, 0x20000):
+            for name, s_ in muts:
+                C.append(dict(base_l, op=op, versions=[v], _mut=name, **s_))
+        for v in (0x300, 0x304, 0):
+            C.append(dict(base_l, op=op, versions=[v], _mut="unsupported", **st()))
+    # inbound: several versions offered, the real negotiation picks
+    for vs in ([0x301, 0x302], [0x302, 0x301], [0x301, 0x20000], [0x303, 0x302, 0x300], [0x300, 0x301], [0x302, 0x304]):
+        for name in ("none", "genesis"):
+            C.append(dict(base_l, op="inbound", versions=vs, _mut="offer:" + name, **(st() if name == "none" else st(genesis="other"))))
+    # concrete type returned by the real GetVersionedHandshaker for every version value (after the connections, so that a
+    # connection completing against the property is the first replay)
+    for v in (0x301, 0x302, 0x303, 0x20000, 0x300, 0x304, 0x10000, 0x20001, 0, 1, 2 ** 32 - 1):
+        C.append(dict(base_l, op="type", versions=[v], schain=chain, genesis="local", peer="conn", best_hash="", height=0, addr="", nil_sender=False, _mut="type"))
+    for _ in range(0 if quick else 200):
+        n1, s1 = rng.choice(muts)
+        n2, s2 = rng.choice(muts)
+        m = dict(s1)
+        for k in s2:
+            if s2[k] != st()[k]:
+                m[k] = s2[k]
+        C.append(dict(base_l, op=rng.choice(["inbound", "outbound"]), versions=[rng.choice([0x301, 0x302, 0x303, 0x20000])], _mut=n1 + "+" + n2, **m))
+    return C
+
+
+TYPE_CODE = {"*v030.V030Handshaker": 0, "*v030.V032Handshaker": 1, "*v030.V033Handshaker": 2, "*v200.V200Handshaker": 3}
+TYPE_OF_VERSION = {0x301: "*v030.V030Handshaker", 0x302: "*v030.V032Handshaker", 0x303: "*v030.V033Handshaker", 0x20000: "*v200.V200Handshaker"}
+
+
 def coq_chain(c):
     v = c["v"] & (2 ** 32 - 1)
     b = lambda x: "true" if x else "false"
@@ -1136,7 +1189,8 @@ def run(ctx):
                 pred_fail.append(("C18:chain-control", "a genuine block with an empty Hash field was not stored under the digest of its header", {"obs": o}))
         rc, log, bp2p = ctx.go_test_binary("p2p", [os.path.join(E, "zz_verif_c18_negotiate_engine_test.go"),
                                                    os.path.join(E, "zz_verif_c18_blkrecv_engine_test.go"),
-                                                   os.path.join(E, "zz_verif_c18_wirehs_engine_test.go")], "p2p.test", use_overlay=True)
+                                                   os.path.join(E, "zz_verif_c18_wirehs_engine_test.go"),
+                                                   os.path.join(E, "zz_verif_c18_vershs_engine_test.go")], "p2p.test", use_overlay=True)
         if rc != 0:
             raise RuntimeError("negotiate engine build failed:\n" + log[-3000:])
         rundir = os.path.join(ctx.workdir, "p2prun")      # the package's own test init() loads ./test/sample/sample.key
@@ -1173,11 +1227,13 @@ def run(ctx):
     recv_items, sm_items, recv_src, sm_src = [], [], [], []
     wire_marshal, wire_resp, wire_rresp, wire_read, wire_wire, wire_src, wire_wsrc, wire_consts, wire_sizes = [], [], [], [], [], [], [], None, None
     wire_out, wire_osrc = [], []
+    vers_kind, vers_ksrc, vers_conn, vers_csrc = [], [], [], []
     if deep or os.environ.get("VERIF_C18_NORECV") != "1":
         t_b = time.time()
         rc, log, bp2p = ctx.go_test_binary("p2p", [os.path.join(E, "zz_verif_c18_negotiate_engine_test.go"),
                                                    os.path.join(E, "zz_verif_c18_blkrecv_engine_test.go"),
-                                                   os.path.join(E, "zz_verif_c18_wirehs_engine_test.go")], "p2p.test", use_overlay=True)
+                                                   os.path.join(E, "zz_verif_c18_wirehs_engine_test.go"),
+                                                   os.path.join(E, "zz_verif_c18_vershs_engine_test.go")], "p2p.test", use_overlay=True)
         if rc != 0:
             raise RuntimeError("p2p (negotiate + blkrecv) engine build failed:\n" + log[-3000:])
         tm["p2p overlay build"] = round(time.time() - t_b, 1)
@@ -1351,6 +1407,77 @@ def run(ctx):
                     pred_fail.append(("C18:wire-response", "a refused wire handshake was not answered with the error magic", {"case": c, "obs": o}))
                 if should and o["rest"] != hx(st[8 + 4 * len(req):]):
                     pred_fail.append(("C18:wire-rest", "bytes after the handshake header did not reach the versioned handshaker intact", {"case": c, "obs": o}))
+        # ---------------- whole connections through the real version manager and versioned handshakers
+        vcases = gen_vershs(ctx) + corpus.get("vershs", [])
+        fin, fout = os.path.join(ctx.workdir, "vers.in"), os.path.join(ctx.workdir, "vers.out")
+        with open(fin, "w") as f:
+            for c in vcases:
+                f.write(json.dumps(c) + "\n")
+        if os.path.exists(fout):
+            os.remove(fout)
+        env = ctx.goenv()
+        env.update({"VERIF_IN": fin, "VERIF_OUT": fout})
+        rc, log = vf.sh([bp2p, "-test.run", "TestVerifC18VersHSEngine"], cwd=rundir, env=env, timeout=900)
+        vobs = [json.loads(l) for l in open(fout)] if os.path.exists(fout) else []
+        if rc != 0 or len(vobs) != len(vcases):
+            raise RuntimeError("vershs engine failed rc=%s obs=%d/%d:\n%s" % (rc, len(vobs), len(vcases), log[-3000:]))
+        for c, o in zip(vcases, vobs):
+            dist["conn:%s:%s" % (c["op"], c["_mut"].split("+")[0] if c["op"] != "type" else "type")] = dist.get("conn:%s:%s" % (c["op"], c["_mut"].split("+")[0] if c["op"] != "type" else "type"), 0) + 1
+            if o.get("panic"):
+                pred_fail.append(("C18:connection-panic", "a whole-connection handshake panicked: " + o["panic"][:200], {"case": c, "obs": o}))
+                continue
+            v = c["versions"][0]
+            if c["op"] == "type":
+                code = TYPE_CODE.get(o["type"], 9 if o["type_err"] else 8)
+                vers_kind.append("(%d, %d)" % (v, code))
+                vers_ksrc.append(dict(case=c, obs=o))
+                exp = TYPE_OF_VERSION.get(v)
+                if (exp is None) != (o["type"] == "") or (exp is not None and o["type"] != exp):
+                    pred_fail.append(("C18:version-handshaker-type", "GetVersionedHandshaker(%#x) returned %s, the handshaker of that protocol version is %s"
+                                      % (v, o["type"] or "an error", exp or "none (unsupported version)"), {"case": c, "obs": o}))
+                continue
+            # the version this connection runs at: inbound = the real negotiation's answer, outbound = the listener's answer
+            if c["op"] == "inbound":
+                run_v = next((a for a in vers["vers"] if a in c["versions"]), 0)
+                if run_v and o["wire_resp"] != hx(MAGIC.to_bytes(4, "big") + run_v.to_bytes(4, "big")):
+                    pred_fail.append(("C18:wire-response", "inbound connection: the wire answer is not (magic, best common version)", {"case": c, "obs": o}))
+            else:
+                run_v = v
+            same_gen = o["gen_used"] == o["local_gen"]
+            same_peer = (not c["nil_sender"]) and o["peer_used"] == o["conn_peer"]
+            lv = c["chain"]["v"] if run_v in (0x301, 0x302) else (c["v0"] if c["height"] < c["fork"] else c["v1"])
+            sc_ = c["schain"]
+            same_chain = (sc_["v"] == lv and sc_["pub"] == c["chain"]["pub"] and sc_["main"] == c["chain"]["main"] and sc_["magic"] == c["chain"]["magic"] and sc_["cons"] == c["chain"]["cons"])
+            if o["accepted"]:
+                if run_v not in TYPE_OF_VERSION:
+                    pred_fail.append(("C18:connection-unsupported-version", "a connection completed at the unsupported version %#x" % run_v, {"case": c, "obs": o}))
+                if not same_peer:
+                    pred_fail.append(("C18:handshake-peer-id", "a %s connection at version %#x completed with a peer id that is not the connection's" % (c["op"], run_v), {"case": c, "obs": o}))
+                if not same_chain:
+                    pred_fail.append(("C18:handshake-chain-id", "a %s connection at version %#x completed with a different chain id" % (c["op"], run_v), {"case": c, "obs": o}))
+                if not same_gen:
+                    if run_v == 0x301:
+                        f20.setdefault("v031_accepts" if c["op"] == "inbound" else "outbound_downgrade_conn", (c, o))
+                    else:
+                        pred_fail.append(("C18:connection-genesis-v%x" % run_v, "a %s connection negotiated at version %#x (which exchanges the genesis hash) completed with a peer of a different genesis"
+                                          % (c["op"], run_v), {"case": c, "obs": o}))
+                if run_v == 0x20000 and len(c["best_hash"]) != 64:
+                    pred_fail.append(("C18:handshake-best-hash", "a 2.0.0 connection completed with a best block hash that is not 32 bytes", {"case": c, "obs": o}))
+                if o["res_no"] != c["height"] or o["res_peer"] != o["peer_used"]:
+                    pred_fail.append(("C18:handshake-result", "the connection's handshake result does not carry the accepted status' peer id / height", {"case": c, "obs": o}))
+            # model item: (version run, local, status, class)
+            b_ = lambda x: "true" if x else "false"
+            loc = "(mk_local %s (forked_chain_id %s %d %d %d) %s %s)" % (coq_chain(c["chain"]), coq_chain(c["chain"]), c["v0"], c["v1"], c["fork"],
+                                                                       cb(bytes.fromhex(o["local_gen"])), cb(bytes.fromhex(o["conn_peer"])))
+            stt = "(mk_status %s %s %d %s %s %s true)" % (cb(bytes.fromhex(o["chain_id"])), cb(bytes.fromhex(c["best_hash"])), c["height"],
+                                                          b_((not c["nil_sender"]) and ADDR_OK[c["addr"]]), cb(b"" if c["nil_sender"] else bytes.fromhex(o["peer_used"])), cb(bytes.fromhex(o["gen_used"])))
+            cls = o["cls"]
+            if cls == 23 and c["nil_sender"] and run_v != 0x20000:
+                cls = 4          # 0.3.x receive fix-up refuses a nil Sender as "malformed status message" before the address test
+            vers_conn.append("(%d, %s, %s, %d)" % (run_v, loc, stt, cls))
+            vers_csrc.append(dict(case=c, obs=o))
+    if "outbound_downgrade_conn" in f20 and "outbound_downgrade" not in f20:
+        f20["outbound_downgrade"] = f20["outbound_downgrade_conn"]
     if "outbound_downgrade" in f20:
         c_, o_ = f20["outbound_downgrade"]
         pred_fail.append(("C18:F20-outbound-listener-picks-version",
@@ -1474,6 +1601,12 @@ def run(ctx):
             "  [([magic_main; hs_error; hs_code_wrong_req; hs_code_no_version; hs_max_version_cnt; hs_word; hs_word; hs_word], %s);" % NL(wc),
             "   ([max_block_size block_size_hard_limit; max_payload_length; block_size_hard_limit; default_max_hdr_size], %s)] 0." % NL([ws[0], ws[5], ws[6], ws[7]]), "Print MWC.",
             "Definition MWE := Eval vm_compute in mismatches_from (fun c : N * N => (fst c + envelope <=? max_payload_length) && (snd c <=? fst c + envelope)) [(%d, %d)] 0." % (ws[1], max(ws[3], ws[4])), "Print MWE."]))
+    if vers_kind or vers_conn:
+        shards.append(("vers", "vers", 0, head + [
+            "Definition vkcases : list (N * N) := [%s]." % ";\n".join(vers_kind),
+            "Definition MVK := Eval vm_compute in mismatches_from kind_case_ok vkcases 0.", "Print MVK.",
+            "Definition vccases : list (N * local * status * N) := [%s]." % ";\n".join(vers_conn),
+            "Definition MVC := Eval vm_compute in mismatches_from conn_case_ok vccases 0.", "Print MVC."]))
     if recv_items or sm_items:
         shards.append(("recv", "recv", 0, head + [
             "From Verif Require Import P2P.BlockRecv.",
@@ -1508,6 +1641,14 @@ def run(ctx):
                 corr.append(("model evaluation unparsable (%s)" % name, out[-1000:]))
             elif res["MI"]:
                 corr.append(("inbound handshake over a byte stream and P2P/Inbound.v differ", [dict(case=fcases[i][0], obs=fcases[i][1]) for i in res["MI"][:5]]))
+        elif kind == "vers":
+            if "MVK" not in res or "MVC" not in res:
+                corr.append(("model evaluation unparsable (%s)" % name, out[-1000:]))
+            else:
+                if res["MVK"]:
+                    corr.append(("GetVersionedHandshaker's result type and versioned_handshaker (P2P/Handshake.v) differ", [vers_ksrc[i] for i in res["MVK"][:5]]))
+                if res["MVC"]:
+                    corr.append(("a whole connection through the real version manager and run_handshaker differ", [vers_csrc[i] for i in res["MVC"][:5]]))
         elif kind == "raw":
             if "MRW" not in res:
                 corr.append(("model evaluation unparsable (%s)" % name, out[-1000:]))
@@ -1569,7 +1710,7 @@ def run(ctx):
     ctx.cov["timing_s"] = tm
     # ================================================================= evidence
     evals = len(W) + len(R) + len(ST) + len(HS) + len(BC) + len(chain_obs) + len(neg_cases)
-    evals += len(recv_items) + len(sm_items) + len(wire_marshal) + len(wire_resp) + len(wire_rresp) + len(wire_read) + len(wire_wire) + len(wire_out)
+    evals += len(recv_items) + len(sm_items) + len(wire_marshal) + len(wire_resp) + len(wire_rresp) + len(wire_read) + len(wire_wire) + len(wire_out) + len(vers_kind) + len(vers_conn)
     ctx.cov["evaluations"] = evals
     ctx.cov["traces_validated_against_impl"] = evals
     nontriv = set()
@@ -1583,6 +1724,8 @@ def run(ctx):
         nontriv.add(("blk", c["hash_field"][:4], c["alter_hdr"], c["wire"], o["block_hash"] == o["digest"]))
     for x in recv_src:
         nontriv.add(("recv", x["case"].get("_tag", "corpus"), len(x["case"]["hashes"]), tuple((so["status"], (so["tells"] or [{"err": -1}])[0]["err"]) for so in x["obs"]["steps"])))
+    for x in vers_ksrc + vers_csrc:
+        nontriv.add(("conn", x["case"]["op"], tuple(x["case"]["versions"]), x["case"]["_mut"], x["obs"]["cls"], x["obs"]["type"]))
     for x in wire_src + wire_wsrc + wire_osrc:
         nontriv.add(("wire", x["case"]["op"], x["case"].get("_kind"), x["obs"]["cls"], x["obs"]["chosen"], min(len(x["case"]["stream"]) // 2, 24)))
     for x in sm_src:
